@@ -361,11 +361,12 @@ def mk_case(deps, strict, **extra):
                 strict=int(strict), **extra)
 
 
-def _chunkings(max_rows, grid):
-    """per sorted row list: every law-abiding chunking of the run [0, grid) (JSON-able, shared between cases)"""
+def _chunkings(max_rows, grid, zero=True):
+    """per sorted row list: every law-abiding chunking of the run [0, grid) (JSON-able, shared between cases):
+    all admissible cut sets and, with zero=True, the variants with a zero-duration chunk at the start, at a cut, at the end"""
     out = []
     for rows in gen.all_sorted_rows(max_rows, grid):
-        out.append([[[s, e, [list(r) for r in rs]] for s, e, rs in ch] for ch in gen.all_chunkings(rows, 0, grid, with_dups=True)])
+        out.append([[[s, e, [list(r) for r in rs]] for s, e, rs in ch] for ch in gen.all_chunkings(rows, 0, grid, with_dups=zero)])
     return out
 
 
@@ -373,15 +374,29 @@ def _case2(ca, cb, ka, kb, strict):
     return dict(deps=[dict(name="a", kind=ka, chunks=ca), dict(name="b", kind=kb, chunks=cb)], strict=strict)
 
 
-def exhaustive_two_kinds(max_rows, grid, strict):
+def exhaustive_two_kinds(max_rows, grid, strict, zero=True):
     """two dependencies of two kinds: every pair of sorted row lists (<= max_rows positive-duration rows on the grid
     0..grid) x every law-abiding chunking of each (all admissible cut sets, plus zero-duration chunks)"""
-    chunkings = _chunkings(max_rows, grid)
+    chunkings = _chunkings(max_rows, grid, zero)
     for cas in chunkings:
         for cbs in chunkings:
             for ca in cas:
                 for cb in cbs:
                     yield _case2(ca, cb, "ka", "kb", strict)
+
+
+def exhaustive_unequal_ends(max_rows, grid):
+    """two dependencies of two kinds ending at different times: one runs over [0, grid-1), the other over [0, grid);
+    every pair of row lists and chunkings, both dependency orders, both policies"""
+    short = _chunkings(max_rows, grid - 1)
+    long_ = _chunkings(max_rows, grid)
+    for cas in short:
+        for cbs in long_:
+            for ca in cas:
+                for cb in cbs:
+                    for strict in (0, 1):
+                        yield _case2(ca, cb, "ka", "kb", strict)
+                        yield dict(deps=[dict(name="b", kind="kb", chunks=cb), dict(name="a", kind="ka", chunks=ca)], strict=strict)
 
 
 def exhaustive_one_kind(max_rows, grid):
@@ -502,11 +517,18 @@ def run(ctx):
 
     # 1. exhaustive small scope
     rule2 = ("two dependencies of two kinds: every pair of time-sorted lists of <= {n} positive-duration rows on grid 0..{g} x every law-abiding "
-             "chunking of each (all admissible cut sets + zero-duration chunks), {pol} policy; non-trivial = >= 2 rows overall and some dependency in > 1 chunk")
-    for (n, g), strict in ctx.pick([((3, 3), 1), ((2, 3), 0)], [((4, 3), 1), ((2, 4), 1), ((3, 3), 0)]):
+             "chunking of each (all admissible cut sets{z}), {pol} policy; non-trivial = >= 2 rows overall and some dependency in > 1 chunk")
+    # (rows, grid), strict?, with the zero-duration-chunk variants?
+    for (n, g), strict, zero in ctx.pick([((3, 3), 1, False), ((2, 3), 1, True), ((2, 3), 0, True)],
+                                         [((4, 3), 1, False), ((3, 3), 1, True), ((2, 4), 1, True), ((3, 3), 0, True)]):
         pol = "strict" if strict else "tolerant"
-        correspond_batched(ctx, f"iter/exhaustive-{n}rows-grid{g}-{pol}", exhaustive_two_kinds(n, g, strict), exhaustive=True,
-                           rule=rule2.format(n=n, g=g, pol=pol))
+        correspond_batched(ctx, f"iter/exhaustive-{n}rows-grid{g}-{pol}{'-zerodur' if zero else ''}", exhaustive_two_kinds(n, g, strict, zero),
+                           exhaustive=True,
+                           rule=rule2.format(n=n, g=g, pol=pol, z=" + a zero-duration chunk at the start / at a cut / at the end" if zero else ""))
+    n, g = ctx.pick((2, 3), (3, 3))
+    correspond_batched(ctx, f"iter/exhaustive-unequal-ends-{n}rows-grid{g}", exhaustive_unequal_ends(n, g), exhaustive=True,
+                       rule=f"two dependencies of two kinds, one over [0,{g - 1}) and one over [0,{g}) (<= {n} rows each), every pair of row lists and "
+                            "law-abiding chunkings, both dependency orders, both policies (rows beyond the common end must raise under the strict policy)")
     n, g = ctx.pick((3, 3), (4, 3))
     correspond_batched(ctx, f"iter/exhaustive-one-kind-{n}rows-grid{g}", exhaustive_one_kind(n, g), exhaustive=True,
                        rule=f"two dependencies of one kind carrying the same rows (<= {n} rows on grid 0..{g}), every pair of law-abiding chunkings, both policies")
